@@ -59,7 +59,7 @@ def amuset_case(draw):
     variant = draw(st.sampled_from(['hosvd', 'hosvd', 'hocur']))
     # integer-valued snapshots make Psi exactly degenerate (repeated snapshots, zero function values): fine for the HOSVD
     # variant, outside the domain of the cross approximation (see C15), which therefore only gets the floating-point forms
-    form = draw(c15.DATA_FORM if variant == 'hosvd' else st.sampled_from(['float', 'float', 'strided', 'fortran']))
+    form = draw(c15.DATA_FORM if variant == 'hosvd' else st.sampled_from(['float', 'float', 'strided', 'fortran', 'readonly']))
     return {'d': d, 'm': m, 'phi': phi, 'pairs': pairs, 'seed': draw(gen.SEED), 'variant': variant,
             'threshold': draw(st.sampled_from([0, 1e-12, 1e-10])), 'as_list': draw(st.booleans()), 'data_form': form}
 
@@ -88,8 +88,8 @@ def run(c, x, phi, xi_list, yi_list):
     if c['variant'] == 'hosvd':
         if c['seed'] % 3 == 0:
             kw['max_rank'] = 1000            # a cap above every rank is a no-op
-        return tedmd.amuset_hosvd(x.copy(), xi_list, yi_list, phi, threshold=c['threshold'], **kw)
-    return tedmd.amuset_hocur(x.copy(), xi_list, yi_list, phi, max_rank=1000, multiplier=3, **kw)
+        return tedmd.amuset_hosvd(x, xi_list, yi_list, phi, threshold=c['threshold'], **kw)
+    return tedmd.amuset_hocur(x, xi_list, yi_list, phi, max_rank=1000, multiplier=3, **kw)
 
 
 def body(c):
